@@ -72,6 +72,12 @@ class CallMixin:
       return VFn(f'list.{name}', impl=lambda it, a, k, _v=v, _n=name: it.list_method(_v, _n, a, k))
     if isinstance(v, (VDict, VMap)):
       return VFn(f'dict.{name}', impl=lambda it, a, k, _v=v, _n=name: it.dict_method(_v, _n, a, k))
+    if isinstance(v, VQueue):
+      if name == 'content':       # ghost view (spec only)
+        return v.q.seq
+      if name == 'maxsize':
+        return VInt(v.cap)
+      return VFn(f'queue.{name}', impl=lambda it, a, k, _v=v, _n=name: it.queue_method(_v, _n, a, k))
     if isinstance(v, VLock):
       return VFn(f'lock.{name}', impl=lambda it, a, k, _v=v, _n=name: it.lock_method(_v, _n, a, k))
     if isinstance(v, VExc):
@@ -341,6 +347,22 @@ class CallMixin:
   def wrap_key(self, m, k):
     return VInt(k) if m.ksort == z3.IntSort() else VOpaque(k)
 
+  def queue_method(self, q, name, a, k):
+    s = q.q.seq
+    if name == 'get_nowait':
+      if self.branch(s.n <= 0):
+        self.raise_('queue.Empty')
+      return self.list_method(q.q, 'popleft', [], {})
+    if name == 'put_nowait':
+      if self.branch(z3.And(q.cap > 0, s.n >= q.cap)):
+        self.raise_('queue.Full')
+      return self.list_method(q.q, 'append', [a[0]], {})
+    if name == 'empty':
+      return VBool(s.n <= 0)
+    if name == 'qsize':
+      return VInt(s.n)
+    raise Unsupported(f'queue method {name}')
+
   # ---- locks (A4: sequential semantics, ghost hold count + event log) ---------------------------
   def lock_acquire(self, lk):
     if lk.held and not lk.reentrant:
@@ -404,13 +426,24 @@ class CallMixin:
       if lk.held <= 0:
         self.raise_('RuntimeError', VStr('cannot notify on un-acquired lock'))
       lk.events.append(name)
+      lk.f_notify = z3.BoolVal(True)
+      if name == 'notify_all':
+        lk.f_notify_all = z3.BoolVal(True)
       return NONE
     if name == 'wait':
       if lk.held <= 0:
         self.raise_('RuntimeError', VStr('cannot wait on un-acquired lock'))
       lk.events.append('wait')
       self.on_wait(lk)
-      return VBool(self.fresh_bool('wait_ok'))
+      ok = self.fresh_bool('wait_ok')
+      tmo = k.get('timeout', a[0] if a else NONE)
+      if isinstance(tmo, VNoneT):
+        ok = z3.BoolVal(True)            # without a timeout wait() only returns when notified
+      elif isinstance(tmo, VOpt):
+        ok = z3.Or(ok, tmo.isnone)
+      prev = self.ghost.get('__timed_out__')
+      self.ghost['__timed_out__'] = VBool(z3.Or(prev.t, z3.Not(ok)) if prev is not None else z3.Not(ok))
+      return VBool(ok)
     raise Unsupported(f'lock method {name}')
 
   def on_wait(self, lk):
